@@ -8,7 +8,8 @@ from __future__ import annotations
 import ast
 
 from ..gen import EXTRA, REPO, Kernel, Untranslatable, all_stmts, assign_value, find_assign, guard_condition, register
-from ..pyexpr import ExprTr, emit_def, find_function, parse_file
+from ..pyexpr import ExprTr, emit_def, find_function, parse_file, translate_block
+from . import c12_norm as N
 
 H5 = "direct/data/h5_data.py"
 DS = "direct/data/datasets.py"
@@ -63,10 +64,29 @@ def _fill_if(fn: ast.FunctionDef, which: int) -> tuple[ast.If, ast.expr]:
     return st, length
 
 
-def _w_kernel(name, params, fallback, pick, ret="Int"):
+_FACTS_CACHE: dict = {}
+
+
+def _facts() -> "N.WindowFacts":
+    """window facts of the current tree (cached per source text)"""
+    src = (REPO / H5).read_text()
+    if _FACTS_CACHE.get("src") != src:
+        _FACTS_CACHE.clear()
+        _FACTS_CACHE["src"] = src
+        try:
+            _FACTS_CACHE["facts"] = N.window_facts(parse_file(REPO / H5))
+        except Untranslatable as e:
+            _FACTS_CACHE["error"] = str(e)
+    if "facts" not in _FACTS_CACHE:
+        raise Untranslatable(_FACTS_CACHE["error"])
+    return _FACTS_CACHE["facts"]
+
+
+def _w_kernel(name, params, fallback, key, ret="Int"):
     def build(k: Kernel, fn: ast.FunctionDef) -> str:
-        tr = ExprTr(_W_BINDS)
-        node = pick(fn)
+        F = _facts()
+        tr = ExprTr(F.binds)
+        node = F.exprs[key]
         return emit_def(k.name, k.params, [], tr.bool(node) if ret == "Bool" else tr.int(node), ret)
 
     return Kernel(name, H5, "H5SliceData.get_slice_data", params, fallback, build, ret_type=ret, imports=IMP)
@@ -75,13 +95,13 @@ def _w_kernel(name, params, fallback, pick, ret="Int"):
 _WP = ["s", "c", "n", "len"]
 
 register("C12", [
-    _w_kernel("window_lo", _WP, "(fun s c _ _ => Dataset.windowLo s c)", lambda fn: _window_read(fn).lower),
-    _w_kernel("window_hi", _WP, "(fun s c n _ => Dataset.windowHi s c n)", lambda fn: _window_read(fn).upper),
-    _w_kernel("window_short", _WP, "(fun _ c _ len => Dataset.windowShort len c)", lambda fn: _short_if(fn).test, "Bool"),
-    _w_kernel("fill_before_guard", _WP, "(fun s c _ _ => Dataset.fillBeforeGuard s c)", lambda fn: _fill_if(fn, 0)[0].test, "Bool"),
-    _w_kernel("fill_before_len", _WP, "(fun s c _ _ => Dataset.fillBeforeLen s c)", lambda fn: _fill_if(fn, 0)[1]),
-    _w_kernel("fill_after_guard", _WP, "(fun s c n _ => Dataset.fillAfterGuard s c n)", lambda fn: _fill_if(fn, 1)[0].test, "Bool"),
-    _w_kernel("fill_after_len", _WP, "(fun s c n _ => Dataset.fillAfterLen s c n)", lambda fn: _fill_if(fn, 1)[1]),
+    _w_kernel("window_lo", _WP, "(fun s c _ _ => Dataset.windowLo s c)", "lo"),
+    _w_kernel("window_hi", _WP, "(fun s c n _ => Dataset.windowHi s c n)", "hi"),
+    _w_kernel("window_short", _WP, "(fun _ c _ len => Dataset.windowShort len c)", "short", "Bool"),
+    _w_kernel("fill_before_guard", _WP, "(fun s c _ _ => Dataset.fillBeforeGuard s c)", "before_guard", "Bool"),
+    _w_kernel("fill_before_len", _WP, "(fun s c _ _ => Dataset.fillBeforeLen s c)", "before_len"),
+    _w_kernel("fill_after_guard", _WP, "(fun s c n _ => Dataset.fillAfterGuard s c n)", "after_guard", "Bool"),
+    _w_kernel("fill_after_len", _WP, "(fun s c n _ => Dataset.fillAfterLen s c n)", "after_len"),
 ])
 
 # ---------------------------------------------------------------------------------------------
@@ -90,8 +110,25 @@ _C_BINDS = {"idx": "idx", "len(self)": "len", "dataset_idx": "d", "self.cumulati
             "self.cumulative_sizes[dataset_idx]": "curc"}
 
 
+def _accumulate_gen(fn: ast.FunctionDef):
+    """`return list(itertools.accumulate(<len(item) for item in sequence>))` (plain running sum) -> the generator, else None"""
+    rets = [n.value for n in ast.walk(fn) if isinstance(n, ast.Return) and n.value is not None]
+    if len(rets) != 1:
+        return None
+    v = rets[0]
+    if isinstance(v, ast.Call) and _txt(v.func) == "list" and len(v.args) == 1 and not v.keywords:
+        v = v.args[0]
+    if isinstance(v, ast.Call) and _txt(v.func) in ("itertools.accumulate", "accumulate") and len(v.args) == 1 and not v.keywords \
+            and isinstance(v.args[0], (ast.GeneratorExp, ast.ListComp)) and len(v.args[0].generators) == 1 \
+            and not v.args[0].generators[0].ifs:
+        return v.args[0]
+    return None
+
+
 def _cumsum_append(k: Kernel, fn: ast.FunctionDef) -> str:
     tr = ExprTr({"length": "length", "total": "total"})
+    if _accumulate_gen(fn) is not None:       # accumulate: the k-th output is the running total after adding the k-th length
+        return emit_def(k.name, k.params, [], "(total + length)")
     for st in all_stmts(fn):
         if (isinstance(st, ast.Expr) and isinstance(st.value, ast.Call) and _txt(st.value.func) == "out_sequence.append"
                 and len(st.value.args) == 1):
@@ -101,19 +138,104 @@ def _cumsum_append(k: Kernel, fn: ast.FunctionDef) -> str:
 
 def _cumsum_total(k: Kernel, fn: ast.FunctionDef) -> str:
     tr = ExprTr({"length": "length", "total": "total"})
+    if _accumulate_gen(fn) is not None:
+        return emit_def(k.name, k.params, [], "(total + length)")
     for st in all_stmts(fn):
         if isinstance(st, ast.AugAssign) and _txt(st.target) == "total":
             return emit_def(k.name, k.params, [], tr.int(ast.BinOp(left=st.target, op=st.op, right=st.value)))
     raise Untranslatable("`total += …` not found")
 
 
+def _concat_locals(fn: ast.FunctionDef):
+    """the top-level single-assignment locals of `__getitem__` with plain right-hand sides (`total_size = len(self)`, …),
+    to be substituted before translating"""
+    env = N.Env()
+    for st in fn.body:
+        if isinstance(st, ast.Assign):
+            env.note(st)
+    env.env.pop("idx", None)
+    return ExprTr(_C_BINDS), env
+
+
+def _concat_neg_if(fn: ast.FunctionDef) -> ast.If:
+    """the `if idx < 0:` branch: the first top-level statement that is not a plain local assignment (and none of those
+    assigns `idx`)"""
+    for st in fn.body:
+        if isinstance(st, ast.Expr) and isinstance(st.value, ast.Constant):
+            continue
+        if isinstance(st, ast.Assign) and len(st.targets) == 1 and isinstance(st.targets[0], ast.Name) and st.targets[0].id != "idx":
+            continue
+        if isinstance(st, ast.If) and _txt(st.test) == "idx<0" and not st.orelse:
+            return st
+        break
+    raise Untranslatable("`if idx < 0:` is not the first branch")
+
+
+def _concat_neg_reject(k: Kernel, fn: ast.FunctionDef) -> str:
+    tr, env = _concat_locals(fn)
+    for st in _concat_neg_if(fn).body:
+        if isinstance(st, ast.If) and st.body and isinstance(st.body[0], ast.Raise):
+            return emit_def(k.name, k.params, [], tr.bool(env.resolve(st.test)), "Bool")
+    raise Untranslatable("guard not found")
+
+
+def _concat_neg_idx(k: Kernel, fn: ast.FunctionDef) -> str:
+    tr, env = _concat_locals(fn)
+    for st in _concat_neg_if(fn).body:
+        if isinstance(st, ast.Assign) and _txt(st.targets[0]) == "idx":
+            return emit_def(k.name, k.params, [], tr.int(env.resolve(st.value)))
+    raise Untranslatable("`idx = …` not found in the negative branch")
+
+
+def _concat_item_index(fn: ast.FunctionDef) -> ast.expr:
+    """the local index handed to the member, as one decision tree: every `return` must be `self.datasets[M][I]` with `M` the
+    bisect result (or the constant it is known to equal on that branch)"""
+    body = list(fn.body)
+    at = next((i for i, st in enumerate(body) if isinstance(st, ast.Assign) and _txt(st.targets[0]) == "dataset_idx"), None)
+    if at is None:
+        raise Untranslatable("`dataset_idx = …` not found")
+    env = N.Env()
+    tail = []
+    for st in body[at + 1:]:
+        if isinstance(st, ast.Assign) and len(st.targets) == 1 and isinstance(st.targets[0], ast.Name):
+            env.note(st)
+            if st.targets[0].id not in env.env:
+                raise Untranslatable(f"`{st.targets[0].id}` is not a plain local")
+            continue
+        tail.append(st)
+    expr = N.returns_to_expr(tail)
+    if expr is None:
+        raise Untranslatable("the tail of __getitem__ is not a decision tree of returns")
+    expr = env.resolve(expr)
+
+    def idx_of(e, known: dict[str, str]):
+        if isinstance(e, ast.IfExp):
+            t = _txt(e.test)
+            kn = dict(known)
+            if t.startswith("dataset_idx==") and t[len("dataset_idx=="):].lstrip("-").isdigit():
+                kn["dataset_idx"] = t[len("dataset_idx=="):]
+            return ast.IfExp(test=e.test, body=idx_of(e.body, kn), orelse=idx_of(e.orelse, known))
+        if isinstance(e, ast.Subscript) and isinstance(e.value, ast.Subscript) and _txt(e.value.value) == "self.datasets":
+            m = _txt(e.value.slice)
+            if m == "dataset_idx" or (m == known.get("dataset_idx")):
+                return e.slice
+        raise Untranslatable(f"`{ast.unparse(e)}` is not an item of the located member")
+
+    return idx_of(expr, {})
+
+
+def _concat_sample_idx(k: Kernel, fn: ast.FunctionDef) -> str:
+    tr, env = _concat_locals(fn)
+    return emit_def(k.name, k.params, [], tr.int(env.resolve(_concat_item_index(fn))))
+
+
 register("C12", [
     Kernel("concat_neg_reject", DS, "ConcatDataset.__getitem__", ["idx", "len"], "Dataset.concatNegReject",
-           guard_condition(_C_BINDS, 0), ret_type="Bool", imports=IMP),
+           _concat_neg_reject, ret_type="Bool", imports=IMP),
     Kernel("concat_neg_idx", DS, "ConcatDataset.__getitem__", ["idx", "len"], "Dataset.concatNegIdx",
-           assign_value(_C_BINDS, "idx"), imports=IMP),
+           _concat_neg_idx, imports=IMP),
     Kernel("concat_sample_idx", DS, "ConcatDataset.__getitem__", ["idx", "d", "prev", "curc"],
-           "(fun idx d prev _ => Dataset.concatSampleIdx idx d prev)", assign_value(_C_BINDS, "sample_idx"), imports=IMP),
+           "(fun idx d prev _ => Dataset.concatSampleIdx idx d prev)", _concat_sample_idx, imports=IMP),
     Kernel("cumsum_append", DS, "ConcatDataset.cumsum", ["length", "total"], "(fun l t => l + t)", _cumsum_append, imports=IMP),
     Kernel("cumsum_total", DS, "ConcatDataset.cumsum", ["length", "total"], "(fun l t => t + l)", _cumsum_total, imports=IMP),
 ])
@@ -155,12 +277,20 @@ register("C12", [
 
 # ---------------------------------------------------------------------------------------------
 # phase 3: the synthetic datasets — number of blob samples, slices per generated volume
+def _fake_num_slices(k: Kernel, fn: ast.FunctionDef) -> str:
+    """`num_slices = <expr>` with private helper methods (decision trees of returns) inlined"""
+    st = find_assign(fn, "num_slices")
+    node = N.inline_expr_calls(st.value, parse_file(REPO / DS), "FakeMRIBlobsDataset")
+    tr = ExprTr({"len(self.spatial_shape)": "ndim", "self.spatial_shape[0]": "shape0"})
+    return emit_def(k.name, k.params, [], tr.int(node))
+
+
 register("C12", [
     Kernel("blobs_n_samples", FK, "FakeMRIData.make_blobs", ["given", "total", "ndim"], "Dataset.blobsNSamples",
            assign_value({"self.blobs_n_samples": "given", "np.prod(list(spatial_shape))": "total", "self.ndim": "ndim"},
                         "n_samples"), imports=IMP),
     Kernel("fake_num_slices", DS, "FakeMRIBlobsDataset.parse_filenames_data", ["ndim", "shape0"], "Dataset.fakeNumSlices",
-           assign_value({"len(self.spatial_shape)": "ndim", "self.spatial_shape[0]": "shape0"}, "num_slices"), imports=IMP),
+           lambda k, fn: _fake_num_slices(k, fn), imports=IMP),
 ])
 
 # ---------------------------------------------------------------------------------------------
@@ -231,59 +361,38 @@ def _parse_table(tree) -> dict[str, bool]:
 
 
 def _window_table(tree) -> dict[str, bool]:
-    fn = find_function(tree, "H5SliceData.get_slice_data")
-    t: dict[str, bool] = {}
-    top = next((s for s in fn.body if isinstance(s, ast.If) and "kspace_context" in _txt(s.test)), None)
-    t["context0_reads_single_slice"] = (top is not None and _txt(top.test) == "self.kspace_context==0"
-                                        and [_txt(s) for s in top.body] == ["curr_data=data[key][slice_no]"])
-    els = top.orelse if top is not None else []
-    t["num_slices_from_file"] = any(isinstance(s, ast.Assign) and _txt(s.targets[0]) == "num_slices"
-                                    and _txt(s.value) == "data[key].shape[0]" for s in els)
-    t["curr_shape_is_read_shape"] = any(isinstance(s, ast.Assign) and _txt(s.targets[0]) == "curr_shape"
-                                        and _txt(s.value) == "curr_data.shape" for s in els)
-    try:
-        b, _ = _fill_if(fn, 0)
-        a, _ = _fill_if(fn, 1)
-
-        def cat(st):
-            for s in st.body:
-                if isinstance(s, ast.Assign) and _txt(s.targets[0]) == "curr_data" and isinstance(s.value, ast.Call) \
-                        and _txt(s.value.func) == "np.concatenate":
-                    lst = s.value.args[0]
-                    ax = _arg(s.value, 1, "axis")
-                    return [_txt(e) for e in lst.elts], (_txt(ax) if ax is not None else None)
-            return None, None
-
-        lb, axb = cat(b)
-        la, axa = cat(a)
-        z = "np.zeros(new_shape,dtype=curr_data.dtype)"
-        t["zeros_before_data"] = lb == [z, "curr_data"] and axb == "0"
-        t["zeros_after_data"] = la == ["curr_data", z] and axa == "0"
-        t["new_shape_copies_read_shape"] = all(
-            any(_txt(s) == "new_shape=list(curr_shape).copy()" for s in st.body) for st in (a, b))
-    except Untranslatable:
-        raise
-    t["depth_axis_moved_to_second"] = any(_txt(s) == "curr_data=np.swapaxes(curr_data,0,1)" for s in els)
-    return t
+    F = N.window_facts(tree)
+    order = ["context0_reads_single_slice", "num_slices_from_file", "curr_shape_is_read_shape", "zeros_before_data",
+             "zeros_after_data", "new_shape_copies_read_shape", "depth_axis_moved_to_second"]
+    return {k: bool(F.rows.get(k, False)) for k in order}
 
 
 def _concat_table(tree) -> dict[str, bool]:
     fn = find_function(tree, "ConcatDataset.__getitem__")
     t: dict[str, bool] = {}
-    first = fn.body[0] if fn.body else None
-    t["negative_branch_on_idx_lt_0"] = isinstance(first, ast.If) and _txt(first.test) == "idx<0" and not first.orelse
-    t["reject_raises_value_error"] = isinstance(first, ast.If) and any(
+    try:
+        first = _concat_neg_if(fn)
+    except Untranslatable:
+        first = None
+    t["negative_branch_on_idx_lt_0"] = first is not None
+    t["reject_raises_value_error"] = first is not None and any(
         isinstance(s, ast.If) and isinstance(s.body[0], ast.Raise) and "ValueError" in _txt(s.body[0]) for s in first.body)
     t["bisect_right_on_cumulative_sizes"] = any(
         isinstance(s, ast.Assign) and _txt(s.targets[0]) == "dataset_idx"
         and _txt(s.value) == "bisect.bisect_right(self.cumulative_sizes,idx)" for s in fn.body)
-    t["returns_member_item"] = isinstance(fn.body[-1], ast.Return) and _txt(fn.body[-1].value) == "self.datasets[dataset_idx][sample_idx]"
+    try:
+        _concat_item_index(fn)
+        t["returns_member_item"] = True
+    except Untranslatable:
+        t["returns_member_item"] = False
     ln = find_function(tree, "ConcatDataset.__len__")
     t["len_is_last_cumulative_size"] = isinstance(ln.body[-1], ast.Return) and _txt(ln.body[-1].value) == "self.cumulative_sizes[-1]"
     init = find_function(tree, "ConcatDataset.__init__")
     t["cumulative_sizes_is_cumsum_of_datasets"] = any(_txt(s) == "self.cumulative_sizes=self.cumsum(self.datasets)" for s in init.body)
     cs = find_function(tree, "ConcatDataset.cumsum")
-    t["cumsum_length_is_len_item"] = any(_txt(s) == "length=len(item)" for s in all_stmts(cs))
+    acc = _accumulate_gen(cs)
+    t["cumsum_length_is_len_item"] = any(_txt(s) == "length=len(item)" for s in all_stmts(cs)) or (
+        acc is not None and _txt(acc.elt) == f"len({_txt(acc.generators[0].target)})" and _txt(acc.generators[0].iter) == "sequence")
     return t
 
 
@@ -580,11 +689,16 @@ def _fake_index_table(ds_tree) -> dict[str, bool]:
         "current_slice_number+=num_slices"] and len(tail) == 3
     t["returns_names"] = _returns(pf) == ["filenames"]
     init = find_function(ds_tree, "FakeMRIBlobsDataset.__init__")
-    data = [x for x in ast.walk(init) if isinstance(x, ast.Assign) and _txt(x.targets[0]) == "self.data"]
-    t["data_is_names_zip_seeds_times_slices"] = len(data) == 1 and _txt(data[0].value) == (
-        "[(filename,slice_no,seed)forfilename,seedinzip(self.parse_filenames_data(filenames),"
+    try:
+        elt, gens = N.loop_nest(init, "self.data")
+        gens = [(tg, N.inline_expr_calls(it, ds_tree, "FakeMRIBlobsDataset")) for tg, it in gens]
+        canon = N.canonical_nest(elt, gens).replace("len(spatial_shape)", "len(self.spatial_shape)")
+    except Untranslatable:
+        canon = None
+    t["data_is_names_zip_seeds_times_slices"] = canon == (
+        "(v0,v2,v1)|for(v0,v1)inzip(self.parse_filenames_data(filenames),"
         "list(self.rng.choice(a=range(int(100000.0)),size=self.sample_size,replace=False)))"
-        "forslice_noinrange(self.spatial_shape[0]iflen(spatial_shape)==3else1)]")
+        "|forv2inrange(self.spatial_shape[0]iflen(self.spatial_shape)==3else1)")
     gi = find_function(ds_tree, "FakeMRIBlobsDataset.__getitem__")
     t["item_reads_data_idx"] = _txt(gi.body[0]) == "filename,slice_no,sample_seed=self.data[idx]"
     calls = _calls(gi, lambda f: f == "self.fake_data")
@@ -693,7 +807,20 @@ def _instance_state_table(trees: dict[str, ast.Module]) -> dict[str, bool]:
     t: dict[str, bool] = {}
     for file, fns in _ITEM_PATH.items():
         for q in fns:
-            t[q.replace(".", "_") + "_writes_no_instance_state"] = not _writes_self(find_function(trees[file], q))
+            cls, _ = q.split(".", 1)
+            seen, todo, clean = set(), [find_function(trees[file], q)], True
+            while todo:                                  # the function and the methods of its class it calls, transitively
+                fn = todo.pop()
+                if fn.name in seen:
+                    continue
+                seen.add(fn.name)
+                clean = clean and not _writes_self(fn)
+                for n in ast.walk(fn):
+                    nm = N._self_call(n, cls)
+                    callee = N.method(trees[file], cls, nm) if nm else None
+                    if callee is not None and callee.name not in seen and callee.name != "__init__":
+                        todo.append(callee)
+            t[q.replace(".", "_") + "_writes_no_instance_state"] = clean
     return t
 
 
